@@ -50,7 +50,7 @@ let model_string (s : st) : string =
     (List.length s.locs) (List.length s.dnl) (List.length s.dnlq) (String.concat "|" ns)
 
 (* ---- parsing of the implementation's dump ---- *)
-type ientry = { e_q : bool; e_exp : int; e_norec : bool }
+type ientry = { e_q : bool; e_exp : int; e_norec : bool; e_flags : string }
 type inode = { i_path : name; i_entries : ientry list; i_cs : (int * int) option }
 type idump = { f : (string * string) list; inodes : inode list }
 
@@ -70,7 +70,7 @@ let parse_node (s : string) : inode =
       let body = String.sub rest (i + 1) (String.length rest - i - 2) in
       List.map (fun e ->
         match String.split_on_char ',' e with
-        | [_; ins; outs; _; q; ex] -> { e_q = (q = "1"); e_exp = int_of_string ex; e_norec = (ins = "-" && outs = "-") }
+        | [fl; ins; outs; _; q; ex] -> { e_q = (q = "1"); e_exp = int_of_string ex; e_norec = (ins = "-" && outs = "-"); e_flags = fl }
         | _ -> failwith "entry") (String.split_on_char ';' body), String.sub rest 0 i
     | None -> [], rest in
   { i_path = name_of_string path; i_entries = entries; i_cs = cs }
@@ -131,6 +131,7 @@ let () =
   let quiescent = ref false in
   let last_tick = ref 0 in
   let last_op = ref "" in
+  let deadline : (string, int) Hashtbl.t = Hashtbl.create 64 in
   let pending_find : (name * bool * bool * csent list) option ref = ref None in
   let pending_int : (int * name * bool * bool * int * csent list * int list) option ref = ref None in
   let diverge what =
@@ -164,6 +165,16 @@ let () =
                   (Printf.sprintf "after=[%s] npit=%s ncs=%s tok=%s heap=%s csmap=%s lruq=%s locs=%s dnl=%s dnlq=%s" !last_op
                      (fld d "npit") (fld d "ncs") (fld d "tok") (fld d "heap") (fld d "csmap") (fld d "lruq") (fld d "locs") (fld d "dnl") (fld d "dnlq")))
       (c08_always cd);
+    (* latest lifetime among the Interests received for an entry (an upper bound of what is recorded in it): once it has
+       elapsed the next Update() must have removed the entry *)
+    let present = List.concat_map (fun nd -> List.map (fun e -> string_of_name nd.i_path ^ "|" ^ e.e_flags) nd.i_entries) d.inodes in
+    Hashtbl.filter_map_inplace (fun k v -> if List.mem k present then Some v else None) deadline;
+    if !last_op = "tick" then
+      List.iter (fun k -> match Hashtbl.find_opt deadline k with
+          | Some dl when dl <= nowi () ->
+            oracle "C08" "outlived-lifetime" (Printf.sprintf "entry %s still present after Update() at %d although the latest lifetime of the Interests received for it ended at %d" k (nowi ()) dl);
+            Hashtbl.remove deadline k
+          | _ -> ()) present;
     if !last_op = "tick" then
       List.iter (fun nd -> List.iter (fun e ->
         if e.e_q && e.e_exp <= nowi () then
@@ -180,7 +191,7 @@ let () =
       let line = input_line stdin in
       incr lineno;
       match String.split_on_char ' ' line with
-      | "case" :: k :: _ -> case := k; gen := 0; incr ncases; diverged := false; quiescent := false;
+      | "case" :: k :: _ -> case := k; gen := 0; incr ncases; diverged := false; quiescent := false; Hashtbl.reset deadline;
           last_model_s := ""; last_impl_s := ""; pending_find := None; pending_int := None
       | "gen" :: _ -> incr gen
       | ["op"; "init"; t0; c; sv; ad; life] ->
@@ -242,6 +253,12 @@ let () =
                                    ms_ns (opt_n life), List.map n_of_int sl)) with
            | RInt (k, c) -> pending_int := Some (int_of_string face, nn, cbp = "1", mbf = "1", int_of_n k, c, sl)
            | _ -> ());
+          (let k = n ^ "|" ^ cbp ^ mbf in
+           let l = (match opt_n life with Some x -> int_of_n x * 1000000 | None -> 4000000000) in
+           let dl = nowi () + l in
+           match Hashtbl.find_opt deadline k with
+           | Some old when old >= dl -> ()
+           | _ -> Hashtbl.replace deadline k dl);
           last_op := Printf.sprintf "int face=%s %s cbp=%s mbf=%s nonce=%s life=%s sent=%s" face n cbp mbf nonce life sent
       | ["obs"; "int"; dt] ->
           (match !pending_int with
